@@ -50,6 +50,7 @@ func runC05(c *engine.Ctx, tier string) {
 	commitSource(c)
 	registryVerdict(c)
 	chunkCursor(c)
+	pluginVerdict(c)
 }
 
 // candidateDocument: C05.2 — provenance of the bytes given to the plugin.
@@ -276,7 +277,7 @@ func registryVerdict(c *engine.Ctx) {
 }
 
 func chunkCursor(c *engine.Ctx) {
-	o := c.Custom("C05.5", "cursor", "in the send loop: slice low bound = cursor, cursor' = slice high bound (len(data) for the open-ended tail), loop condition cursor < len(data), and the slice is what is sent",
+	o := c.Custom("C05.5", "cursor", "in the send loop: slice low bound = cursor, cursor' = slice high bound (len(data) for the open-ended tail), a bounded chunk is cut only under high bound <= len(data), loop condition cursor < len(data), and the slice is what is sent",
 		"the plugin receives every byte of the document exactly once, whatever its size relative to the chunk size")
 	defer o.Done(2)
 	paths, err := c.A.PathsOpt(pkgRegistry, engine.PathOpts{Roots: []string{".ModelPluginInfo.Validate"}, NoInline: true})
@@ -369,6 +370,18 @@ func chunkCursor(c *engine.Ctx) {
 			case !strings.Contains(sent, "Json:"+slice):
 				bad = "the chunk that is sent (" + sent + ") is not the slice that was cut"
 			}
+			if bad == "" && hi != "" {
+				// a bounded chunk must lie inside the document: hi <= len(data) on this path
+				within := false
+				for j := i + 1; j < exit; j++ {
+					if ej := &p.Events[j]; ej.Kind == engine.EvCond && ej.Lit.L == hi && ej.Lit.R == "len($jsonData)" && ej.Lit.Mask&4 == 0 && ej.Lit.Mask != 0 {
+						within = true
+					}
+				}
+				if !within {
+					bad = "the bounded chunk " + slice + " is cut on a path that does not establish " + hi + " <= len(data): the last chunk of a document that is not a multiple of the chunk size is sliced out of range"
+				}
+			}
 			if bad != "" {
 				o.Fail(&engine.Violation{Key: "ModelPluginInfo.Validate|chunk cursor", Pos: c.P.Pos(le.Pos), Func: p.Root.Name(), Msg: bad})
 				return
@@ -401,4 +414,85 @@ func splitSlice(s string) (lo, hi string, ok bool) {
 		}
 	}
 	return "", "", false
+}
+
+// pluginVerdict: C05.6. The registry's Validate answers nil only for a document the plugin accepted.
+func pluginVerdict(c *engine.Ctx) {
+	o := c.Custom("C05.6", "K-outcome(verdict)", "ModelPluginInfo.Validate returns nil only on paths on which the stream was opened without error, every Send's error was tested nil, CloseAndRecv's error was tested nil and the response's Valid flag was tested true",
+		"the proposal controller treats nil as 'the plugin accepted the candidate': a swallowed stream error or an unread verdict lets an unvalidated or rejected document become configuration")
+	defer o.Done(1)
+	paths, err := c.A.PathsOpt(pkgRegistry, engine.PathOpts{Roots: []string{".ModelPluginInfo.Validate"}, NoInline: true})
+	if err != nil {
+		o.Undecided(pkgRegistry, err.Error())
+		return
+	}
+	reported := map[string]bool{}
+	for _, p := range paths {
+		last := &p.Events[len(p.Events)-1]
+		if last.Kind != engine.EvReturn || len(last.Results) != 1 || last.Results[0] != "nil" {
+			continue
+		}
+		o.Site(c.P.Pos(last.Pos) + " return nil")
+		o.Eval(1)
+		conds := engine.CondsBefore(p, len(p.Events)-1)
+		// conditions inside the (closed) send loop count too: collect them over the whole path
+		var all []engine.Lit
+		for i := range p.Events {
+			if p.Events[i].Kind == engine.EvCond {
+				all = append(all, p.Events[i].Lit)
+			}
+		}
+		_ = conds
+		okErr := func(canon string) bool {
+			for _, l := range all {
+				if l.L == "err("+canon+")" && l.RNil && l.Mask == 2 {
+					return true
+				}
+			}
+			return false
+		}
+		var recv string
+		opened, closed := false, false
+		bad := ""
+		for i := range p.Events {
+			e := &p.Events[i]
+			if e.Kind != engine.EvCall {
+				continue
+			}
+			switch {
+			case strings.HasSuffix(e.CalleeName, ".ValidateConfigChunked"):
+				opened = true
+				if !okErr(e.Canon) {
+					bad = "the error of opening the validation stream is not tested"
+				}
+			case strings.HasSuffix(e.CalleeName, ".Send"):
+				if !okErr(e.Canon) {
+					bad = "the error of a chunk Send is not tested nil before the document is reported valid"
+				}
+			case strings.HasSuffix(e.CalleeName, ".CloseAndRecv"):
+				closed = true
+				recv = e.Canon
+				if !okErr(e.Canon) {
+					bad = "the error of CloseAndRecv is not tested nil"
+				}
+			}
+		}
+		valid := false
+		for _, l := range all {
+			if recv != "" && l.L == recv+".Valid" && l.R == "true" && l.Mask == 2 {
+				valid = true
+			}
+		}
+		switch {
+		case bad != "":
+		case !opened || !closed:
+			bad = "nil is returned on a path that does not open the stream and receive the plugin's response"
+		case !valid:
+			bad = "nil is returned on a path that does not test the response's Valid flag"
+		}
+		if bad != "" && !reported[bad] {
+			reported[bad] = true
+			o.Fail(&engine.Violation{Key: "ModelPluginInfo.Validate|" + bad, Pos: c.P.Pos(last.Pos), Func: p.Root.Name(), Msg: bad})
+		}
+	}
 }
